@@ -92,7 +92,7 @@ def _process_in(t, model, normalize_options):
 def _process_out(g, model, normalize_options):
     if normalize_options['reconfigure']:
         key, kwargs = normalize_options['reconfigure']
-        t = layout.reconfigure(g, key=key, **kwargs)
+        t = layout.reconfigure(g, model=model, key=key, **kwargs)
         g = layout.interpret(t, model)
     else:
         t = layout.configure(g, model=model)
